@@ -1030,6 +1030,106 @@ MergeSquash ==
            exp |-> IF Gen THEN [nc |-> nc + 1, t |-> PatchTree(HeadTree, TreeOf(MergeBase(head, tip2)), tree[tip2])]
                    ELSE <<>>])
 
+\* ---- interactive rebase (reorder / fixup / drop) and multi-commit cherry-pick.
+\* A plan is a sequence of groups; a group is a sequence of original commits folded into ONE new commit
+\* (one member = pick, several = pick + fixup ...); commits of the range that appear in no group are dropped.
+RECURSIVE FoldPatches(_, _)
+FoldPatches(base, members) ==      \* tree after applying the members' patches in order
+  IF members = <<>> THEN base
+  ELSE FoldPatches(TLCEval(PatchTree(base, TreeOf(par[Head(members)]), tree[Head(members)])), TLCEval(Tail(members)))
+RECURSIVE FoldOK(_, _)
+FoldOK(base, members) ==
+  IF members = <<>> THEN TRUE
+  ELSE IF ~PatchOK(base, TreeOf(par[Head(members)]), tree[Head(members)]) THEN FALSE
+  ELSE FoldOK(TLCEval(PatchTree(base, TreeOf(par[Head(members)]), tree[Head(members)])), TLCEval(Tail(members)))
+RECURSIVE PlanOK(_, _)
+PlanOK(base, plan) ==
+  IF plan = <<>> THEN TRUE
+  ELSE IF ~FoldOK(base, Head(plan)) THEN FALSE
+  ELSE IF FoldPatches(base, Head(plan)) = base THEN FALSE        \* an empty commit would be dropped by git
+  ELSE PlanOK(TLCEval(FoldPatches(base, Head(plan))), TLCEval(Tail(plan)))
+\* the note of a folded commit: every added line keeps the author some member's note gave it
+FollowNoteMulti(N, members, tnew, tpar) ==
+  LET auth(f, u) == LET ms == { i \in DOMAIN members : u \in UidsOf(tree[members[i]][f])
+                                   /\ At(N[members[i]].files[f], PosOfUid(tree[members[i]][f], u)) # H }
+                    IN IF ms = {} THEN H
+                       ELSE LET m == members[Min(ms)] IN At(N[m].files[f], PosOfUid(tree[m][f], u))
+      nf == [f \in File |-> Trim([n \in 1..Len(tnew[f]) |->
+                 IF tnew[f][n] \notin LinesOf(tpar[f]) THEN auth(f, tnew[f][n][1]) ELSE H])]
+  IN  [has |-> \E i \in DOMAIN members : N[members[i]].has, files |-> nf,
+       prompts |-> UNION { N[members[i]].prompts : i \in DOMAIN members }, wf |-> TRUE]
+RECURSIVE PlanRun(_, _, _, _, _, _)
+PlanRun(plan, on, T, P, K, st) ==
+  IF plan = <<>> THEN [tree |-> T, par |-> P, ckind |-> K, notes |-> st.notes, nc |-> st.nc, last |-> on]
+  ELSE LET grp == Head(plan)
+           k   == st.nc + 1
+           nt  == FoldPatches(T[on], grp)
+           N2  == [st.notes EXCEPT ![k] = FollowNoteMulti(notes, grp, nt, T[on])]
+       IN PlanRun(TLCEval(Tail(plan)), k, TLCEval([T EXCEPT ![k] = nt]), TLCEval([P EXCEPT ![k] = on]),
+                  TLCEval([K EXCEPT ![k] = st.kind]), TLCEval([notes |-> N2, nc |-> k, kind |-> st.kind]))
+
+RECURSIVE Flatten(_)
+Flatten(p) == IF p = <<>> THEN <<>> ELSE Head(p) \o Flatten(Tail(p))
+\* plans offered for the last two or three commits <<a, b>> / <<a, b, c>> (oldest first)
+PlansFor(ch) ==
+  IF Len(ch) = 2
+  THEN { << <<ch[2]>>, <<ch[1]>> >>, << <<ch[1], ch[2]>> >>, << <<ch[2]>> >> }
+  ELSE IF Len(ch) = 3
+  THEN { << <<ch[1]>>, <<ch[3]>>, <<ch[2]>> >>, << <<ch[1]>>, <<ch[2], ch[3]>> >>, << <<ch[1], ch[2]>>, <<ch[3]>> >>,
+         << <<ch[1]>>, <<ch[3]>> >>, << <<ch[3]>>, <<ch[1]>>, <<ch[2]>> >>, << <<ch[1], ch[3]>>, <<ch[2]>> >> }
+  ELSE {}
+\* git fast-forwards over the leading picks that are unchanged: they keep their commits
+RECURSIVE KeptPrefix(_, _)
+KeptPrefix(ch, plan) == IF ch # <<>> /\ plan # <<>> /\ Head(plan) = <<Head(ch)>>
+                        THEN 1 + KeptPrefix(Tail(ch), Tail(plan)) ELSE 0
+
+IRebase(n, plan) ==
+  LET ch   == LET full == ChainFrom(0, head) IN SubSeq(full, Len(full) - n + 1, Len(full))
+      base == par[ch[1]]
+      kp   == KeptPrefix(ch, plan)
+      on   == IF kp = 0 THEN base ELSE ch[kp]
+      rest == SubSeq(plan, kp + 1, Len(plan))
+  IN
+  /\ Guard(/\ head # 0 /\ Len(ChainFrom(0, head)) > n /\ plan \in PlansFor(ch) /\ NoAgentDirty /\ stash = <<>>
+           /\ wt = HeadTree /\ idx = HeadTree /\ (tip2 = 0 \/ ch[1] \notin Ancestors(tip2))
+           /\ \A i \in DOMAIN ch : ckind[ch[i]] # "init"
+           /\ nc + Len(rest) <= MaxCommit /\ rest # <<>>
+           /\ PlanOK(tree[on], rest))
+  /\ ops' = ops \cup {"rebase"}
+  /\ UNCHANGED <<truth, nu, der, dirty, stash, snote>>
+  /\ LET ok == IF Gen THEN TRUE ELSE (Len(ChainFrom(0, head)) > n /\ nc + Len(rest) <= MaxCommit /\ PlanOK(tree[on], rest))
+         r  == IF ok THEN PlanRun(rest, on, tree, par, ckind, [notes |-> notes, nc |-> nc, kind |-> "rebase"])
+               ELSE Unmodelled
+         g  == NG2(r.tree[r.last], r.tree[r.last], r.tree, r.par, KindNew("rebase", r.nc), r.nc, r.last, tip2, side)
+     IN /\ GitAdopt(g)
+        \* As built (wrapper mode) original and rewritten commits are paired BY POSITION; a plan that reorders or
+        \* drops commits gives commits the notes of their neighbours: deviation "irebase_pairs_by_position".
+        /\ AiAdopt(g, [wl EXCEPT ![r.last] = wl[head], ![head] = EmptyWL],
+                      [ini EXCEPT ![r.last] = ini[head], ![head] = NoMaps], r.notes,
+                      IF "irebase_pairs_by_position" \in Dev /\ Flatten(plan) # ch
+                      THEN {"irebase_pairs_by_position"} ELSE {})
+        /\ Step([a |-> "IRebase", n |-> n, plan |-> plan,
+                 exp |-> IF Gen THEN [nc |-> r.nc, t |-> r.tree[r.last]] ELSE <<>>])
+
+\* git cherry-pick A C   (two commits of the other branch in one command, not necessarily adjacent)
+CherryPickMany(seq) ==
+  /\ Guard(/\ tip2 # 0 /\ Len(seq) = 2 /\ seq[1] < seq[2]
+           /\ \A i \in DOMAIN seq : seq[i] \in Ancestors(tip2) \ Ancestors(head)
+           /\ NoAgentDirty /\ stash = <<>> /\ wt = HeadTree /\ idx = HeadTree /\ nc + 2 <= MaxCommit
+           /\ PlanOK(HeadTree, << <<seq[1]>>, <<seq[2]>> >>))
+  /\ ops' = ops \cup {"cherry"}
+  /\ UNCHANGED <<truth, nu, der, dirty, stash, snote>>
+  /\ LET plan == << <<seq[1]>>, <<seq[2]>> >>
+         ok == IF Gen THEN TRUE ELSE (nc + 2 <= MaxCommit /\ head # 0 /\ PlanOK(HeadTree, plan))
+         r  == IF ok THEN PlanRun(plan, head, tree, par, ckind, [notes |-> notes, nc |-> nc, kind |-> "cherry"])
+               ELSE Unmodelled
+         g  == NG2(r.tree[r.last], r.tree[r.last], r.tree, r.par, KindNew("cherry", r.nc), r.nc, r.last, tip2, side)
+     IN /\ GitAdopt(g)
+        /\ AiAdopt(g, [wl EXCEPT ![r.last] = wl[head], ![head] = EmptyWL],
+                      [ini EXCEPT ![r.last] = ini[head], ![head] = NoMaps], r.notes, {})
+        /\ Step([a |-> "CherryPickMany", cs |-> seq,
+                 exp |-> IF Gen THEN [nc |-> r.nc, t |-> r.tree[r.last]] ELSE <<>>])
+
 GenRewrite ==
   \/ "branch" \in Alphabet /\ MakeBranch
   \/ "switch" \in Alphabet /\ Switch
@@ -1037,6 +1137,11 @@ GenRewrite ==
   \/ "cherry" \in Alphabet /\ \E o \in 1..nc : CherryPick(o)
   \/ "amend"  \in Alphabet /\ Amend
   \/ "squash" \in Alphabet /\ MergeSquash
+  \/ "irebase" \in Alphabet /\ \E n \in {2, 3} :
+        LET full == ChainFrom(0, head)
+        IN /\ Len(full) > n
+           /\ \E plan \in PlansFor(SubSeq(full, Len(full) - n + 1, Len(full))) : IRebase(n, plan)
+  \/ "cherry_many" \in Alphabet /\ \E a \in 1..nc, b \in 1..nc : CherryPickMany(<<a, b>>)
 
 -----------------------------------------------------------------------------
 (* Initial states *)
@@ -1140,11 +1245,13 @@ TrSwitch == IsEv("Switch") /\ Switch
 TrRebase == IsEv("Rebase") /\ Rebase
 TrCherry == IsEv("CherryPick") /\ CherryPick(Ev.c)
 TrAmend  == IsEv("Amend") /\ Amend
+TrIRebase == IsEv("IRebase") /\ IRebase(Ev.n, Ev.plan)
+TrCherryMany == IsEv("CherryPickMany") /\ CherryPickMany(Ev.cs)
 TrSquash == IsEv("MergeSquash") /\ MergeSquash
 
 TraceNext ==
   /\ ~Gen
-  /\ \/ TrMv \/ TrBranch \/ TrSwitch \/ TrRebase \/ TrCherry \/ TrAmend \/ TrSquash
+  /\ \/ TrIRebase \/ TrCherryMany \/ TrMv \/ TrBranch \/ TrSwitch \/ TrRebase \/ TrCherry \/ TrAmend \/ TrSquash
      \/ TrReadOnly \/ TrCkptRepeat
      \/ TrReset \/ TrEdit \/ TrCkpt \/ TrAdd \/ TrCommit
      \/ TrResetHard \/ TrResetKeep \/ TrDiscard \/ TrStashPush \/ TrStashPop
